@@ -19,9 +19,9 @@ import (
 func init() { cmds["c09"] = c09Main }
 
 type flOp struct {
-	kind       string
-	a, b, c    uint64
-	ids        []uint64
+	kind    string
+	a, b, c uint64
+	ids     []uint64
 }
 
 func (o flOp) String() string {
